@@ -28,22 +28,20 @@ def slice_builder_unwind(chk, prog):
         for s in bb["s"]:
             if s["k"] == "assign" and s["p"]["p"] and s["p"]["p"][-1] == ["f", il] and s["p"]["l"] == 1:
                 asg.append((i, s))
-    ok = len(cb) == 1 and len(wr) >= 1 and len(asg) == 1
+    ok = len(cb) == 1 and len(wr) >= 1 and len(asg) >= 1
     chk.inst("slice-builder:shape", WSW, ok,
-             detail="expected one element-constructor call, an element write and one init_length update; found "
+             detail="expected one element-constructor call, an element write and an init_length update; found "
                     "%d/%d/%d" % (len(cb), len(wr), len(asg)))
     if not ok:
         return
     dom = cfg.dominators(b, unwind=False)
-    ab = asg[0][0]
-    # order: constructor call -> element write -> init_length update (all in the loop body)
-    chk.inst("slice-builder:init_length-after-write", WSW,
-             any(w in dom[ab] for w in wr) and cb[0] in dom[ab],
+    # every update of init_length (there may be several after a refactor) must come after the constructor call
+    # and an element write, and store the index of the element just written plus one
+    after_write = all(any(w in dom[ab] for w in wr) and cb[0] in dom[ab] for (ab, _s) in asg)
+    chk.inst("slice-builder:init_length-after-write", WSW, after_write,
              detail="init_length is updated on a path where the element has not been written yet: a panic in the "
                     "next constructor call would destruct uninitialised memory")
-    # the updated value is index + 1
-    s = asg[0][1]
-    chk.inst("slice-builder:init_length-is-index-plus-one", WSW, _is_index_plus_one(b, s["r"]),
+    chk.inst("slice-builder:init_length-is-index-plus-one", WSW, all(_is_index_plus_one(b, s_["r"]) for (_ab, s_) in asg),
              detail="init_length is not assigned `i + 1` of the element just written")
     # unwind edge of the constructor call reaches the builder's Drop
     u = cfg.unwind_succ(b["blocks"][cb[0]])
